@@ -1,6 +1,62 @@
-(* Corr/AlignCorr.v — correspondence entry points. *)
+(* Corr/AlignCorr.v — correspondence entry points for package align.
+   Cases:
+     align_global / align_global_v : [a b matrix] -> outcome [steps score]
+     align_local  / align_local_v  : [a b matrix] -> outcome [steps ai bi score]
+     align_shipped                 : [name a b]   -> [global-outcome local-outcome]
+   matrix = list of [a b score] (the harness sends it sorted, keys unique);
+   steps = one byte per step (1 match, 2 deletion, 3 insertion).
+   The _v kinds run the same model function; they differ on the Go side only
+   (which direct oracle is evaluated). *)
 From Coq Require Import String.
 From Bio Require Import Base.
 From Bio.Model Require Import Align.
 
-Definition corr_align : list (string * (val -> val)) := [].
+Definition as_entry (v : val) : option ((byte * byte) * Z) :=
+  match v with
+  | VL [VI x; VI y; VI s] => Some ((Z.to_N x, Z.to_N y), s)
+  | _ => None
+  end.
+
+Definition as_matrix (v : val) : option matrix :=
+  match v with VL l => all_some (map as_entry l) | _ => None end.
+
+Definition v_steps (l : list step) : val := VB (map (fun s => Z.to_N (step_code s)) l).
+
+Definition v_global (r : list step * Z) : val := VL [v_steps (fst r); VI (snd r)].
+Definition v_local (r : list step * Z * Z * Z) : val :=
+  let '(st, ai, bi, s) := r in VL [v_steps st; VI ai; VI bi; VI s].
+
+Definition c_global (v : val) : val :=
+  match v with
+  | VL [VB a; VB b; mv] =>
+    match as_matrix mv with
+    | Some m => v_outcome v_global (global m a b)
+    | None => v_bad
+    end
+  | _ => v_bad
+  end.
+
+Definition c_local (v : val) : val :=
+  match v with
+  | VL [VB a; VB b; mv] =>
+    match as_matrix mv with
+    | Some m => v_outcome v_local (local m a b)
+    | None => v_bad
+    end
+  | _ => v_bad
+  end.
+
+Definition c_shipped (v : val) : val :=
+  match v with
+  | VL [VB name; VB a; VB b] =>
+    match shipped name with
+    | Some g => VL [v_outcome v_global (global_g g a b); v_outcome v_local (local_g g a b)]
+    | None => v_bad
+    end
+  | _ => v_bad
+  end.
+
+Definition corr_align : list (string * (val -> val)) :=
+  [ ("align_global"%string, c_global); ("align_global_v"%string, c_global);
+    ("align_local"%string, c_local); ("align_local_v"%string, c_local);
+    ("align_shipped"%string, c_shipped) ].
